@@ -211,7 +211,11 @@ let run_case k (c : case) =
 
 let () =
   let lines = Ocommon.read_lines () in
+  let contains s sub = let n = String.length s and m = String.length sub in
+    let rec go i = i + m <= n && (String.sub s i m = sub || go (i+1)) in go 0 in
   List.iteri (fun k line ->
+    if contains line "f=3" && contains line "|" then Printf.printf "%d TIMED\n" k    (* real-clock scenario: the harness's oracle alone *)
+    else
     match parse_case line with
     | None -> Printf.printf "%d BADCASE\n" k
     | Some c when c.fine -> Printf.printf "%d FINE\n" k     (* judged by the harness's oracle alone *)
